@@ -617,3 +617,40 @@ func OnePhase(names ...string) []PhaseCfg {
 	}
 	return []PhaseCfg{p}
 }
+
+// FaultEvents offers, for the controller/key given, every fault kind at every request index of
+// its pass (while the fault budget lasts).
+func FaultEvents(w *world.World, ctrl string, name string, kinds []world.FaultKind) []world.Event {
+	if w.Budget["fault"] <= 0 {
+		return nil
+	}
+	probe := w.Clone()
+	n := len(probe.Reconcile(ctrl, NN(name), nil).Reqs)
+	var evs []world.Event
+	for i := 0; i < n; i++ {
+		for _, fk := range kinds {
+			i, fk := i, fk
+			evs = append(evs, world.Event{Name: fmt.Sprintf("fault:%s:%s:%s@%d", strings.ToLower(ctrl), name, fk, i), Apply: func(w *world.World) *world.Pass {
+				w.Budget["fault"]--
+				return w.Reconcile(ctrl, NN(name), &world.Plan{FaultAt: i, Fault: fk})
+			}})
+		}
+	}
+	return evs
+}
+
+// TemplateOf extracts the ObjectSetTemplateSpec part (phases, probes, successDelay) of a stored
+// ObjectSet or of an ObjectDeployment's template as canonical text.
+func TemplateOf(c map[string]any) string {
+	spec, _ := c["spec"].(map[string]any)
+	if t, ok := spec["template"].(map[string]any); ok {
+		spec, _ = t["spec"].(map[string]any)
+	}
+	pick := map[string]any{}
+	for _, f := range []string{"phases", "availabilityProbes", "successDelaySeconds"} {
+		if v, ok := spec[f]; ok {
+			pick[f] = v
+		}
+	}
+	return kmodel.Digest(pick)
+}
